@@ -315,7 +315,7 @@ func runGxzScenarioOnce(r *Result, d *DriverPool, gxz string, sc gxzScenario, in
 func checkC10(a *checkArgs, r *Result) error {
 	gxz := os.Getenv("XZH_GXZ")
 	if gxz == "" {
-		gxz = "/verif/harness/gxz-bin"
+		gxz = verifRoot() + "/harness/gxz-bin"
 	}
 	if _, err := os.Stat(gxz); err != nil {
 		return fmt.Errorf("gxz binary %s missing: %v", gxz, err)
